@@ -142,6 +142,12 @@ impl Connection {
         }
     }
     
+    /// True when the peer has closed the connection; checked without consuming any input
+    pub fn peer_closed(&self) -> bool {
+        let mut probe = [0u8; 1];
+        matches!(self.stream.peek(&mut probe), Ok(0))
+    }
+    
     /// Try to parse a frame from the read buffer
     pub fn parse_frame(&mut self) -> Result<Option<RespFrame>> {
         self.parser.parse()
